@@ -70,6 +70,8 @@ def interval_values(n, level):
     if n >= 3:
         out.append([[0, 1, False, [['1.5', 1]]], [1, n, True, [['Oxidation', 1]]]])
         out.append([[0, 1, False, None], [2, n, False, [['Oxidation', 2]]]])
+        out.append([[0, 1, True, None], [1, n, False, [['Oxidation', 1]]]])      # ambiguous, then plain
+        out.append([[0, 1, True, [['1.5', 1]]], [2, n, False, None]])
     return out
 
 
